@@ -357,6 +357,11 @@ pub fn run_judged_by(ctx: &RunCtx, tier: Tier, judge: &dyn Fn(&[Obs]) -> V) -> R
     out
 }
 
+/// The handle-drop exploration for sibling oracles.
+pub fn run_handles_dropped(ctx: &RunCtx) -> RunOut {
+    run_with_budget(ctx, DropMode::Handles)
+}
+
 /// The back-off exploration (first attempt of every check fails, two requests) judged by another oracle.
 pub fn run_backoff_judged_by(ctx: &RunCtx, tier: Tier, judge: &dyn Fn(&[Obs]) -> V) -> RunOut {
     let mut out = run_script(ctx, tier, 2, true);
@@ -568,6 +573,7 @@ fn run_with_budget(ctx: &RunCtx, mode: DropMode) -> RunOut {
         }
     }
     let log = e.log();
+    crate::cross::stash(&log, false);
     let mut out = RunOut::new(if mode == DropMode::Handles { "handles-dropped" } else { "stream-dropped" }, true, trace::digest(&log));
     if ctx.want_trace {
         out.trace = Some(trace::trace_json(&log));
@@ -576,6 +582,10 @@ fn run_with_budget(ctx: &RunCtx, mode: DropMode) -> RunOut {
         let n = log.iter().filter(|o| matches!(o, Obs::CheckAllowed { .. })).count();
         if n < target {
             return out.fail("timer-driven operation stops after all control handles were dropped", format!("{n} decisions, expected {target}"));
+        }
+        // "leaves scheduled operation intact": scheduled checks still wait for their timers
+        if let Err((k, m)) = crate::props::c12::oracle(&log, false) {
+            return out.fail(format!("scheduled operation not intact after all control handles were dropped: {k}"), m);
         }
         return out;
     }
